@@ -46,13 +46,16 @@ PID = "C20"
 
 HISTORY_POOL = ["a eq 1 and contains(b/c, 'x')", "a eq", "a eq ) 1", "a eq #", "nosuch(1)", "length(1, 2)",
                 "geo.distance(p, geography'SRID=0;Point(1 2)') lt 5 and city eq 'New  York'",
+                # literals that start but never end: whatever the lexer set up for the literal must not outlive the error
+                "p eq geography'SRID=0;Point(1 2)", "name eq 'abc", "d eq duration'P1D", "a eq 1 and (b eq geography'x",
                 # paths of three and more segments: plain, as lambda owner, and in inputs that fail *after* the path was reduced
                 "a/b/c eq 1", "a/b/c/any(x: x/p/q gt 1) and", "f(a/b/c/d) eq"]
 # near-duplicates: texts that differ only where a normalising memo key would not look (blank runs and letter case inside a
 # quoted literal, the namespace of a function name, the spelling of a number, the case of a field name, trailing blanks)
 NEAR = ["city eq 'New  York'", "city eq 'New York'", "city eq 'New\tYork'", "city eq 'new york'", "CITY eq 'New York'",
         "distance(p, geography'SRID=0;Point(1 2)') lt 5", "geo.contains(x, 'y')", "contains(x, 'y')", "geo.length(p)", "n eq 01", "n eq 1",
-        "n eq 1.0", "n eq 1 ", "n  eq  1", "geography'SRID=0;Point(1  2)' eq p", "geography'SRID=0;Point(1 2)' eq p"]
+        "n eq 1.0", "n eq 1 ", "n  eq  1", "geography'SRID=0;Point(1  2)' eq p", "geography'SRID=0;Point(1 2)' eq p",
+        "p eq geography'SRID=0;Point(1 2)", "name eq 'abc", "round(price, 2) eq 1.5", "round(price) eq 1"]
 PROBES = ["a eq 1 and contains(b/c, 'x')", "a/any(x: x/k gt 1) or not (b in (1, 2))", "a eq", "(a", "a eq #", "nosuch(1)",
           "length(1, 2)", "", "geo.distance(p, geography'SRID=0;Point(1 2)') lt 5",
           "name in ('a', 'b', 'c', 'd', 'a')", "n in (3, 1, 2, 3, 1) and m in ('x', 1, 'x', 2.5, null, 1)",
@@ -379,21 +382,7 @@ def interleaving_differences() -> List[dict]:
     return diffs[:5]
 
 
-def class_state() -> str:
-    """canonical digest input of the class-level tables every instance shares"""
-    t = ODataParser._lrtable
-    g = ODataParser._grammar
-    d = {
-        "lr_action": sorted((s, sorted(row.items())) for s, row in t.lr_action.items()),
-        "lr_goto": sorted((s, sorted(row.items())) for s, row in t.lr_goto.items()),
-        "productions": [(p.name, list(p.prod), getattr(p.func, "__name__", None), repr(p.prec)) for p in g.Productions],
-        "master": [ODataLexer._master_re.pattern, ODataLexer._master_re.flags],
-        "token_funcs": [(k, getattr(f, "__qualname__", repr(f))) for k, f in ODataLexer._token_funcs.items()],
-        "functions": list(grammar.ODATA_FUNCTIONS.items()),
-        "tokens": sorted(ODataLexer.tokens), "literals": sorted(ODataLexer.literals),
-        "precedence": [list(x) for x in ODataParser.precedence],
-    }
-    return json.dumps(d, sort_keys=False, default=repr)
+from .c20_state import class_state  # noqa: E402  (light module: the sweep's child processes import only that)
 
 
 # ---------------------------------------------------------------- hash seed / import order sweep
@@ -403,13 +392,25 @@ order = sys.argv[1]
 if order == "grammar-first":
     import odata_query.grammar as g
     import odata_query.rewrite, odata_query.roundtrip, odata_query.sql
+elif order == "grammar-only":
+    import odata_query.grammar as g          # no backend is ever imported: a backend must not change the shared tables at import
+elif order == "sqlalchemy-only":
+    import odata_query.sqlalchemy
+    import odata_query.grammar as g
+elif order == "django-only":
+    from verif.models import setup as _ms
+    _ms.django_setup()
+    import odata_query.django
+    import odata_query.grammar as g
+elif order == "athena-only":
+    import odata_query.sql.athena
+    import odata_query.grammar as g
 else:
     import odata_query.sql, odata_query.roundtrip, odata_query.rewrite
     import odata_query.visitor, odata_query.typing
     import odata_query.grammar as g
-from verif.props.c20 import class_state
+from verif.props.c20_state import class_state
 from odata_query.grammar import ODataLexer, ODataParser
-from odata_query.roundtrip import AstToODataVisitor
 probe = []
 for text in ["a eq 1 and contains(b/c, 'x')", "a eq", "nosuch(1)", "a/any(x: x/k gt 1) or not (b in (1, 2))",
              "ns.f(p=1, q=2)", "ns.f(p=1, q='s', r=a)", "ns.f(alpha=1, beta=2, gamma=3, delta=4, epsilon=5)", "a in ('x', 'y', 'z', 'w')",
@@ -418,10 +419,14 @@ for text in ["a eq 1 and contains(b/c, 'x')", "a eq", "nosuch(1)", "a/any(x: x/k
              # repeated members: a de-duplication through set() would make the order depend on the hash seed
              "name in ('a', 'b', 'c', 'd', 'a')", "name in ('delta', 'alpha', 'charlie', 'bravo', 'alpha', 'echo', 'delta')",
              "n in (3, 1, 2, 3, 1)", "m in ('x', 1, 'x', 2.5, null, 1, true, 'y')", "(1, 1, 2) eq (2, 2, 1)",
-             "f in (a, b, a, c/d, c/d)", "ns.f(p=1, q=2, p=1)", "concat(a, a) eq concat('x', 'x')"]:
+             "f in (a, b, a, c/d, c/d)", "ns.f(p=1, q=2, p=1)", "concat(a, a) eq concat('x', 'x')",
+             # calls at the edges of every built-in's argument range: a backend that widens a range at import shows here
+             "round(price, 2) eq 1.5", "round() eq 1", "substring(a) eq 'x'", "substring(a, 1, 2, 3) eq 'x'", "concat(a) eq 'x'",
+             "concat(a, b, c) eq 'x'", "now(1) gt d", "trim(a, b) eq 'x'", "floor(x, 1) eq 1", "geo.length(p, q) gt 1",
+             "hassubset(a) eq true", "contains(a) eq true", "year() eq 1", "date(a, b) eq d", "indexof(a) eq 1"]:
     try:
         tree = ODataParser().parse(ODataLexer().tokenize(text))
-        probe.append([repr(tree), AstToODataVisitor().visit(tree)])
+        probe.append(repr(tree))
     except Exception as e:
         probe.append(type(e).__name__ + ": " + str(e))
 print(json.dumps({"state": class_state(), "probe": probe}))
@@ -432,7 +437,8 @@ def seed_sweep(run: Run) -> None:
     seeds = [0, 1, 2, 12345] if run.tier == "quick" else [0, 1, 2, 3, 5, 7, 11, 42, 99, 1000, 12345, 65535, 2 ** 20, 2 ** 31, 4294967295, 31337]
     procs = []
     for seed in seeds:
-        for order in ("grammar-first", "grammar-last"):
+        orders = ("grammar-first", "grammar-last", "grammar-only", "sqlalchemy-only", "django-only", "athena-only")
+        for order in (orders if seed == seeds[0] or run.tier != "quick" else orders[:2]):
             env = dict(os.environ, PYTHONHASHSEED=str(seed))
             env["PYTHONPATH"] = os.pathsep.join([str(_root())] + ([env["PYTHONPATH"]] if env.get("PYTHONPATH") else []))
             procs.append((seed, order, subprocess.Popen([sys.executable, "-c", _CHILD, order], env=env, stdout=subprocess.PIPE,
@@ -459,7 +465,7 @@ def seed_sweep(run: Run) -> None:
                                                 "how_to_replay": f"PYTHONHASHSEED={seed} python -c 'import odata_query.grammar' ({order}) and compare the tables"},
                           f"the generated {which} differ between hash seeds / import orders ({name})", "hash-seed-sweep(concrete)")
             continue
-        run.discharged(f"hash-seed:{name}: tables, function table, precedence, 20 probe ASTs and their roundtrip renderings identical", "hash-seed-sweep(concrete)",
+        run.discharged(f"hash-seed:{name}: tables, function table, precedence, 35 probe outcomes identical", "hash-seed-sweep(concrete)",
                        nontrivial=False)
     run.extra["hash_seed_sweep(finite configuration sweep, not a solver verdict)"] = {"configurations": len(procs), "distinct_digests": digests}
 
